@@ -138,6 +138,31 @@ def check_layout_predicates(res, L, rng, tag, light=False):
             res.violate('v*v is not the quadratic form of the signature', dict(site, v=coef), (v * v).value.tolist(), q, site)
 
 
+def check_signature_array(res, rng):
+    """an algebra built from an explicit signature *array* is the algebra of the signature it was given: what the caller does to the
+    array afterwards (before or after the first product) changes neither the products nor `layout.sig`"""
+    import numpy as np
+    import clifford as cf
+    for n in (2, 3, 4):
+        for when in ('before-first-product', 'after-first-product'):
+            sig0 = [int(x) for x in rng.choice([1, -1, 0], size=n)]
+            if all(x == sig0[0] for x in sig0):
+                sig0[0] = -sig0[0] if sig0[0] else 1
+            arr = np.array(sig0, dtype=int)
+            L = cf.Layout(arr)
+            E = L.basis_vectors_lst
+            if when == 'after-first-product':
+                _ = E[0] * E[0]
+            arr[:] = [(-x if x else 1) for x in sig0]        # the caller reuses its array
+            site = dict(sig=sig0, op='signature-array', when=when)
+            res.case(('sig-array', tuple(sig0), when), nontrivial=True)
+            res.count('sig_array')
+            got = [int((e * e).value[0]) for e in E]
+            if got != sig0 or [int(x) for x in L.sig] != sig0:
+                res.violate('a layout built from a signature array follows later changes of that array', site, dict(squares=got, layout_sig=[int(x) for x in L.sig]),
+                            sig0, site)
+
+
 def _compare_tables(res, layouts, which=('gmt',)):
     """layouts: list of (tag, real layout). Compares order arrays and tables with the model."""
     from harness import real
@@ -199,6 +224,7 @@ def run_job(job, tier, seed):
         common.gcall(res, _compare_tables, layouts)
         for tag, L in layouts:
             common.gcall(res, check_layout_predicates, L, rng, tag, light=(L.gaDims > 64 and tier == 'quick'))
+        common.gcall(res, check_signature_array, rng)
         # predefined algebra modules: documented signature, table, predicates
         pre = []
         for name, (attr, sig) in real.PREDEFINED.items():
